@@ -362,9 +362,13 @@ def _prefix_native(sign):
         from xlcalculator import tokenizer
         # natively the pass cannot be entered in isolation: drive the whole tokenizer with a formula whose token
         # before the sign has the wanted kind (only realisable kinds are produced; others are skipped by `requires`)
-        text = {('operand', ''): 'A1', ('function', 'stop'): 'SUM(1)', ('subexpression', 'stop'): '(1)',
-                ('operator-infix', ''): '1*', ('function', 'start'): 'SUM(', ('subexpression', 'start'): '(',
-                ('argument', ''): 'SUM(1,'}[(ptype, psub)]
+        table = {('operand', ''): 'A1', ('function', 'stop'): 'SUM(1)', ('subexpression', 'stop'): '(1)',
+                 ('operator-infix', ''): '1*', ('function', 'start'): 'SUM(', ('subexpression', 'start'): '(',
+                 ('argument', ''): 'SUM(1,'}
+        if (ptype, psub) not in table:
+            from pyvc.engine import NotReachable
+            raise NotReachable(f'no formula makes the token before the sign a {ptype}/{psub}')
+        text = table[(ptype, psub)]
         tail = {('function', 'start'): '2)', ('subexpression', 'start'): '2)', ('argument', ''): '2)'}.get((ptype, psub), '2')
         toks = tokenizer.ExcelParser().getTokens(text + sign + tail).items
         idx = max(i for i, t in enumerate(toks) if t.tvalue == sign and t.ttype.startswith('operator')) if sign == '-' else None
